@@ -102,9 +102,14 @@ class Ctx:
 
 
 # ------------------------------------------------------------------ lint
-def lint(ctx):
+def lint(ctx, only=None):
     bad = []
-    for f in sorted(glob.glob(os.path.join(ctx.coqdir, "**", "*.v"), recursive=True)):
+    files = sorted(glob.glob(os.path.join(ctx.coqdir, "**", "*.v"), recursive=True))
+    if only is not None and not os.environ.get("VERIF_LINT_ALL"):
+        # the property's own cone (other families' work in progress must not block this
+        # check); setup.sh and the final audit lint the whole tree
+        files = [os.path.join(ctx.coqdir, f) for f in only]
+    for f in files:
         src = strip_comments(open(f, errors="replace").read())
         # Variable/Hypothesis are allowed only inside a Section
         depth = 0
@@ -382,8 +387,12 @@ def run(plugin, tier, seed, replay_path=None):
            "traces_validated_against_impl": 0, "repo": REPO}
     proof_broken = None
 
-    # 1. lint
-    bad = lint(ctx)
+    # 1. lint (the cone of this property)
+    try:
+        lint_files = sorted(set(cone(ctx, plugin.PROPS_FILE) + sum([cone(ctx, t[:-1]) for t in plugin.COQ_TARGETS], [])))
+    except Exception:
+        lint_files = None
+    bad = lint(ctx, lint_files)
     if bad:
         path = write_replay(ctx, "lint", {"kind": "lint", "forbidden": bad})
         violations.append("VIOLATION property=%s replay=%s no-failing-input-found" % (pid, path))
